@@ -306,12 +306,13 @@ def h_ansatz(env, which, n_mos=2, n_electrons=2, spin=0, utd=False, signs=None, 
         from tangelo.toolboxes.ansatz_generator.adapt_ansatz import ADAPTAnsatz
         from harness.c07 import _pool
         picks = [int(x) for x in which.split(":")[1].split(",")]
+        ref_spelling = which.split(":")[2] if which.count(":") > 1 else None      # the class reads reference_state case-insensitively
         pool = _pool("jw", utd, 2 * n_mos)
         if n_mos > 2:
             # prefer operators whose Pauli words differ in LENGTH (the interesting ones for any re-ordering of words)
             mixed = [op for op in pool if len({len(w) for w in op.terms}) > 1]
             pool = mixed or pool
-        a = ADAPTAnsatz(2 * n_mos, n_electrons, spin, {"mapping": "jw", "up_then_down": utd})
+        a = ADAPTAnsatz(2 * n_mos, n_electrons, spin, dict({"mapping": "jw", "up_then_down": utd}, **({"reference_state": ref_spelling} if ref_spelling else {})))
         a.build_circuit()
         for p in picks:
             a.add_operator(copy.deepcopy(pool[p % len(pool)]))
@@ -431,6 +432,8 @@ def shapes(tier, seed):
     for utd in (False, True):
         for picks in ("0,1", "2,3", "3,0,2") + (("1,1", "0,1,2,3") if tier == "thorough" else ()):
             out.append(Shape(f"ansatz/ADAPT/{picks}/utd{int(utd)}", h_ansatz, dict(which=f"ADAPT:{picks}", utd=utd), modules=MODS, max_paths=64))
+    for sp_ in ("hf", "Hf", "HF"):
+        out.append(Shape(f"ansatz/ADAPT/0,3/utd0/reference_state={sp_}", h_ansatz, dict(which=f"ADAPT:0,3:{sp_}", utd=False), modules=MODS, max_paths=64))
     # high-spin references (n_alpha - n_beta = 2): the reference itself must sit in the right S_z sector
     for which in ("UCCGD", "UCCSD", "UpCCGSD"):
         for utd in (False, True):
